@@ -374,6 +374,61 @@ Proof.
   split; [reflexivity|]. split; [reflexivity|].
   eexists. eexists. split; [vm_compute; reflexivity|]. split; [vm_compute; reflexivity|]. discriminate.
 Qed.
+(* ------------------------------------------------------------------ FeatureList.sort *)
+Lemma insert_ft_perm rev x l : Permutation (insert_ft rev x l) (x :: l).
+Proof.
+  induction l as [|y l IH]; cbn [insert_ft]; [apply Permutation_refl|].
+  destruct (ft_before rev x y); [|apply Permutation_refl].
+  eapply Permutation_trans; [apply perm_skip; exact IH|apply perm_swap].
+Qed.
+Lemma sort_fts_perm rev l : Permutation (sort_fts rev l) l.
+Proof.
+  induction l as [|x l IH]; cbn [sort_fts fold_right]; [constructor|].
+  eapply Permutation_trans; [apply insert_ft_perm|apply perm_skip; exact IH].
+Qed.
+(* the result is ordered by covered range: no feature is strictly behind its successor (ahead, for reverse=True) *)
+Fixpoint ordered_fts (rev : bool) (l : list feature) : bool :=
+  match l with
+  | x :: (y :: _) as r => negb (ft_before rev x y) && ordered_fts rev r
+  | _ => true
+  end.
+Lemma ordered_cons rev x y r : ordered_fts rev (x :: y :: r) = negb (ft_before rev x y) && ordered_fts rev (y :: r).
+Proof. reflexivity. Qed.
+Lemma ft_before_asym rev x y : ft_before rev x y = true -> ft_before rev y x = false.
+Proof.
+  unfold ft_before. destruct (cmp_defs (flocs x) (flocs y)) as (A & _), (cmp_defs (flocs y) (flocs x)) as (B & _).
+  destruct rev; rewrite A, B; unfold ranges_lt; lia.
+Qed.
+Lemma insert_ft_ordered rev x l : ordered_fts rev l = true -> ordered_fts rev (insert_ft rev x l) = true.
+Proof.
+  induction l as [|y l IH]; intros H; [reflexivity|].
+  cbn [insert_ft]. destruct (ft_before rev x y) eqn:E.
+  - destruct l as [|z l].
+    + cbn [insert_ft]. rewrite ordered_cons, (ft_before_asym rev x y E). reflexivity.
+    + rewrite ordered_cons in H. apply andb_prop in H. destruct H as [H1 H2]. specialize (IH H2).
+      cbn [insert_ft] in *. destruct (ft_before rev x z) eqn:F.
+      * rewrite ordered_cons, H1. exact IH.
+      * rewrite ordered_cons, (ft_before_asym rev x y E). exact IH.
+  - rewrite ordered_cons, E. exact H.
+Qed.
+Lemma sort_fts_ordered rev l : ordered_fts rev (sort_fts rev l) = true.
+Proof. induction l as [|x l IH]; [reflexivity|]. cbn [sort_fts fold_right]. apply insert_ft_ordered. exact IH. Qed.
+Lemma sort_fts_id rev l : ordered_fts rev l = true -> sort_fts rev l = l.
+Proof.
+  induction l as [|x l IH]; intros H; [reflexivity|]. cbn [sort_fts fold_right]. fold (sort_fts rev l).
+  destruct l as [|y r]; [reflexivity|]. rewrite ordered_cons in H. apply andb_prop in H. destruct H as [H1 H2].
+  rewrite (IH H2). cbn [insert_ft]. apply negb_true_iff in H1. rewrite H1. reflexivity.
+Qed.
+(* FeatureList.sort(): a permutation, ordered by covered range (ties in input order: the sort is the stable insertion sort) *)
+Lemma sort_fts_spec rev l :
+  Permutation (sort_fts rev l) l /\ ordered_fts rev (sort_fts rev l) = true /\
+  (forall x y, ft_before rev x y = (if rev then ranges_lt (range (flocs x)) (range (flocs y))
+                                    else ranges_lt (range (flocs y)) (range (flocs x)))).
+Proof.
+  split; [apply sort_fts_perm|]. split; [apply sort_fts_ordered|].
+  intros x y. unfold ft_before. destruct rev; apply cmp_defs.
+Qed.
+
 (* ------------------------------------------------------------------ the invariant over operation histories *)
 Notation WF := (fun f : feature => wf_ft f = true).
 Notation LOK := (fun l : loc => loc_ok l = true).
@@ -436,8 +491,9 @@ Proof.
 Qed.
 Lemma apply_op_wf o st st' : Forall WF st -> apply_op o st = Some st' -> Forall WF st'.
 Proof.
-  intros Hst. destruct o as [a b r|L|i L|i raws|i j|a b r mut|i j]; cbn [apply_op];
-    [| | | | |intros H; inversion H; subst; exact Hst|intros H; inversion H; subst; exact Hst].
+  intros Hst. destruct o as [a b r|L|i L|i raws|i j|a b r mut|i j|rev]; cbn [apply_op];
+    [| | | | |intros H; inversion H; subst; exact Hst|intros H; inversion H; subst; exact Hst|
+     intros H; inversion H; subst; eapply Forall_perm; [apply Permutation_sym; apply sort_fts_perm|exact Hst]].
   - unfold slice. apply fts_slice_wf.
   - unfold fts_rc. intros H. eapply all_some_Forall; [|exact H]. intros x y. apply feature_rc_wf.
   - apply update_nth_Forall; [|exact Hst]. intros x y. apply feature_rc_wf.
@@ -650,7 +706,7 @@ Qed.
 Lemma apply_op_total o st : wf_fts st = true -> op_ok o st = true ->
   match o with OSetLocs _ _ => True | _ => apply_op o st <> None end.
 Proof.
-  intros W K. destruct o as [a b r|L|i L|i raws|i j|a b r mut|i j]; [| | |exact I| |discriminate|discriminate]; cbn [apply_op].
+  intros W K. destruct o as [a b r|L|i L|i raws|i j|a b r mut|i j|rev]; [| | |exact I| |discriminate|discriminate|discriminate]; cbn [apply_op].
   - unfold slice. rewrite fts_slice_exact; [discriminate|exact W].
   - destruct (fts_rc_exact L st W) as [E _]. rewrite E. discriminate.
   - apply (update_nth_total (fun f => wf_ft f = true)).
